@@ -379,12 +379,129 @@ def container_path_stream(ctx, res, n):
             res.violate("C15:wrong-path:" + what, "the validation error does not name the full path of the offending field", dict(case, got=got[1]))
 
 
+def merged_and_standalone_stream(ctx, res):
+    """(a) configurations that reach a list through a merge with another owner's list of the same field (+=, extend, +, slice
+    assignment; the other owner is a sibling list item or a second configuration): a later rejection inside a merged item names the
+    place it is in now; (b) configurations created on their own from a sub-schema three and four levels below the root schema: every
+    rejection (keyword, attribute, dotted path, tree, document, list items and dict entries below it) names the schema's full path"""
+    import cincoconfig as cc
+    from cincoconfig.core import ValidationError
+
+    def outcome(fn):
+        try:
+            fn()
+            return ("accepted", None)
+        except ValidationError as e:
+            return ("ValidationError", e.ref_path)
+        except Exception as e:  # noqa
+            return (type(e).__name__, None)
+
+    def judge(case, got, want, what):
+        res.case(stable(case), kind="merged-standalone:" + what)
+        if got[0] == "accepted":
+            res.hist["merged-standalone:accepted"] += 1
+        elif got[0] != "ValidationError":
+            res.violate("C15:not-validation-error:" + what, "a rejection surfaced as %s, not as the library's validation error" % got[0], case)
+        elif got[1] != want:
+            res.violate("C15:wrong-path:" + what, "the validation error does not name the full path of the offending field", dict(case, got=got[1], want=want))
+
+    # (a)
+    for typed in (False, True):
+        for how in ("iadd", "extend", "add-assign", "slice", "insert-each"):
+            for other_owner in ("sibling-item", "second-configuration"):
+                for reject in ("attr", "dotted", "nested", "dict-entry"):
+                    rule = cc.Schema()
+                    rule.port = cc.IntField(default=1)
+                    rule.opts.ttl = cc.IntField(default=5)
+                    rule.limits = cc.DictField(cc.StringField(), cc.IntField(), default=dict)
+                    R = cc.make_type(rule, "MRule") if typed else rule
+                    group = cc.Schema()
+                    group.rules = cc.ListField(R, default=lambda: [])
+                    s = cc.Schema()
+                    s.fw.groups = cc.ListField(group, default=lambda: [])
+                    a, b = s(), s()
+                    for c in (a, b):
+                        c.fw.groups = [{"rules": [{"port": 10}, {"port": 11}]}, {"rules": [{"port": 20}]}]
+                    dst = a.fw.groups[1].rules
+                    src = a.fw.groups[0].rules if other_owner == "sibling-item" else b.fw.groups[0].rules
+                    try:
+                        if how == "iadd":
+                            dst += src
+                        elif how == "extend":
+                            dst.extend(src)
+                        elif how == "add-assign":
+                            a.fw.groups[1].rules = dst + src
+                        elif how == "slice":
+                            dst[1:] = src
+                        else:
+                            for x in list(src):
+                                dst.insert(len(dst), x)
+                    except Exception as e:  # noqa
+                        res.case(None, kind="merged-standalone:merge-raised")
+                        continue
+                    dst = a.fw.groups[1].rules
+                    if len(dst) != 3:
+                        res.case(None, kind="merged-standalone:merge-odd-length")
+                        continue
+                    target = dst[2]
+                    if reject == "attr":
+                        want, got = "fw.groups[1].rules[2].port", outcome(lambda: setattr(target, "port", "x"))
+                    elif reject == "dotted":
+                        want, got = "fw.groups[1].rules[2].opts.ttl", outcome(lambda: target.__setitem__("opts.ttl", "x"))
+                    elif reject == "nested":
+                        want, got = "fw.groups[1].rules[2].opts.ttl", outcome(lambda: setattr(target.opts, "ttl", []))
+                    else:
+                        want, got = "fw.groups[1].rules[2].limits[cpu]", outcome(lambda: target.limits.__setitem__("cpu", "lots"))
+                    judge({"stream": "merged-standalone", "what": "merged-item", "how": how, "other_owner": other_owner, "reject": reject, "config_type": typed}, got, want, "merged-item")
+    # (b)
+    for depth in (1, 2, 3, 4):
+        names = ["net", "http", "tls", "opts"][:depth]
+        for route in ("keyword", "attr", "dotted", "load_tree", "json", "item-in-tree", "item-appended", "dict-entry", "nested-below"):
+            s = cc.Schema()
+            sub = s
+            for nme in names:
+                sub = getattr(sub, nme)
+            item = cc.Schema()
+            item.v = cc.IntField(default=1)
+            sub.level = cc.IntField(default=1)
+            sub.items = cc.ListField(item, default=lambda: [])
+            sub.limits = cc.DictField(cc.StringField(), cc.IntField(), default=dict)
+            sub.inner.flag = cc.BoolField(default=False)
+            pre = ".".join(names)
+            try:
+                alone = sub()
+            except Exception:  # noqa
+                res.case(None, kind="merged-standalone:standalone-raised")
+                continue
+            if route == "keyword":
+                want, got = pre + ".level", outcome(lambda: sub(level="x"))
+            elif route == "attr":
+                want, got = pre + ".level", outcome(lambda: setattr(alone, "level", "x"))
+            elif route == "dotted":
+                want, got = pre + ".inner.flag", outcome(lambda: alone.__setitem__("inner.flag", "maybe"))
+            elif route == "load_tree":
+                want, got = pre + ".level", outcome(lambda: alone.load_tree({"level": "x"}))
+            elif route == "json":
+                want, got = pre + ".level", outcome(lambda: alone.loads(b'{"level": "x"}', format="json"))
+            elif route == "item-in-tree":
+                want, got = pre + ".items[1].v", outcome(lambda: alone.load_tree({"items": [{"v": 1}, {"v": "bad"}]}))
+            elif route == "item-appended":
+                alone.items = [{"v": 1}]
+                want, got = pre + ".items[0].v", outcome(lambda: setattr(alone.items[0], "v", "bad"))
+            elif route == "dict-entry":
+                want, got = pre + ".limits[cpu]", outcome(lambda: alone.limits.__setitem__("cpu", "lots"))
+            else:
+                want, got = pre + ".inner.flag", outcome(lambda: setattr(alone.inner, "flag", "maybe"))
+            judge({"stream": "merged-standalone", "what": "standalone-from-sub-schema", "depth": depth, "route": route}, got, want, "standalone-from-sub-schema")
+
+
 def run(ctx, n_quick=250, n_thorough=8000):
     res = Result()
     P.run_stream(ctx, res, "C15", ctx.n(n_quick, n_thorough), oracle, gen_ops=gen_ops, ops_len=(8, 20))
     guard(res, "C15", doc_stream, ctx, res, ctx.n(40, 1500))
     guard(res, "C15", include_docs, ctx, res)
     guard(res, "C15", container_path_stream, ctx, res, ctx.n(150, 4000))
+    guard(res, "C15", merged_and_standalone_stream, ctx, res)
     return res
 
 
